@@ -233,7 +233,7 @@ func cmdCheck(args []string) {
 	// discharge
 	scratch := scratchDir()
 	defer os.RemoveAll(scratch)
-	opts := solveOpts{timeoutS: 20, seed: seed, scratch: scratch, workers: 14}
+	opts := solveOpts{timeoutS: 30, seed: seed, scratch: scratch, workers: 14}
 	if *tier == "thorough" {
 		opts.timeoutS = 60
 		opts.needTwo = true
